@@ -1,5 +1,10 @@
 """Real SIGINT delivery to real fork/spawn runs at controlled resting points (tasks sleep in run()).
-Usage: intr_real.py <backend> <single|double> out.json"""
+Usage: intr_real.py <backend> <single|double|single_ext|double_block|double_handled_run|double_handled_app> out.json
+
+double_handled_* (driven by the C13 check): the tasks return at once and spend their time inside the SAVE (a result whose
+pickling sleeps); both Ctrl-C arrive while the workers are saving, so the second one (ProcessExecutor.stop -> terminate())
+delivers SIGTERM mid-save. A raising SIGTERM handler is in force in the workers as far as the user can tell: installed by
+the task's own run() (`_run`), or by this "application" before run_tasks and inherited by forked workers (`_app`)."""
 import json
 import os
 import signal
@@ -15,6 +20,9 @@ HERE = os.path.dirname(os.path.abspath(__file__))
 def main():
     backend, mode, outp = sys.argv[1], sys.argv[2], sys.argv[3]
     signal.signal(signal.SIGINT, signal.default_int_handler)   # (an inherited SIG_IGN would make every Ctrl-C a no-op)
+    signal.signal(signal.SIGTERM, signal.SIG_DFL)              # a defined SIGTERM disposition, whatever was inherited
+    signal.pthread_sigmask(signal.SIG_UNBLOCK, {signal.SIGTERM})
+    handled = mode.startswith('double_handled')
     import logging
     import labtech
     import rtasks
@@ -38,6 +46,11 @@ def main():
     try:
         lab = labtech.Lab(storage=os.path.join(wd, 's'), runner_backend=backend, max_workers=2)
         tasks = [rtasks.Sleeper(k=i, seconds=2.5, block_sigterm=(mode == 'double_block'), external=(mode == 'single_ext')) for i in range(4)]   # 2 run at once, 2 stay queued
+        if handled:
+            os.environ['VERIF_RT_SLOWSAVE'] = '1'
+            if mode == 'double_handled_app':
+                signal.signal(signal.SIGTERM, rtasks.exit143)   # the application's graceful-shutdown handler
+            tasks = [rtasks.SlowSaver(k=i, seconds=6.0, own_handler=(mode == 'double_handled_run')) for i in range(3)]   # 2 save at once, 1 stays queued
         pid = os.getpid()
 
         def ctrl_c():
@@ -54,7 +67,7 @@ def main():
             deadline = time.time() + 30
             while time.time() < deadline:
                 try:
-                    if open(rtasks.LOG).read().count('s') >= 2:
+                    if open(rtasks.LOG).read().count('p' if handled else 's') >= 2:   # (handled: both workers are inside the save)
                         break
                 except OSError:
                     pass
@@ -62,7 +75,7 @@ def main():
             time.sleep(0.2)
             sig_times.append(time.time())
             ctrl_c()
-            if mode in ('double', 'double_block'):
+            if mode in ('double', 'double_block') or handled:
                 time.sleep(0.25)
                 sig_times.append(time.time())
                 ctrl_c()
@@ -76,6 +89,46 @@ def main():
         signal.signal(signal.SIGINT, signal.SIG_IGN)   # a late signal must not hit the harness itself
         rec['elapsed'] = round(time.time() - (sig_times[0] if sig_times else t0), 2)
         rec['process_group_signal'] = os.getpgid(0) == pid
+        if handled:
+            signal.signal(signal.SIGTERM, signal.SIG_DFL)
+            lines = open(rtasks.LOG).read().split() if os.path.exists(rtasks.LOG) else []
+            # the terminated workers may still be unwinding: look at the storage only when they are gone
+            deadline = time.time() + 15
+            for wp in [int(l[1:]) for l in lines if l[0] == 'w']:
+                while time.time() < deadline:
+                    try:
+                        if open(f'/proc/{wp}/stat').read().rsplit(')', 1)[1].split()[0] in ('Z', 'X'):
+                            break      # a zombie (nobody has waited for it yet) has finished executing
+                    except OSError:
+                        break
+                    time.sleep(0.02)
+            rec['workers_gone_after'] = round(time.time() - sig_times[-1], 2) if sig_times else None
+            lines = open(rtasks.LOG).read().split() if os.path.exists(rtasks.LOG) else []
+            rec['started'] = sorted(int(l[1:]) for l in lines if l[0] == 's')
+            rec['save_started'] = sorted(int(l[1:]) for l in lines if l[0] == 'p')
+            rec['save_resumed'] = sorted(int(l[1:]) for l in lines if l[0] == 'q')
+            rec['handler_ran'] = sum(1 for l in lines if l[0] == 'u')
+            rec['signals'] = len(sig_times)
+            # what a fresh Lab sees: is_cached / cached_tasks / a load of every cached-looking entry
+            lab2 = labtech.Lab(storage=os.path.join(wd, 's'), runner_backend='serial', continue_on_failure=True)
+            rec['cached'] = [i for i, t in enumerate(tasks) if lab2.is_cached(t)]
+            try:
+                rec['listed'] = sorted(t.k for t in lab2.cached_tasks([rtasks.SlowSaver]))
+            except BaseException as e:
+                rec['listed'] = 'raises ' + type(e).__name__
+            rec['files'] = {k: sorted(os.listdir(os.path.join(wd, 's', k))) for k in sorted(os.listdir(os.path.join(wd, 's'))) if not k.startswith('.')}
+            bad = {}
+            for i in rec['cached']:
+                try:
+                    v = tasks[i]._lt.cache.load_result_with_meta(lab2._storage, tasks[i]).value
+                    if getattr(v, 'k', None) != i:
+                        bad[i] = 'loads a wrong value'
+                except BaseException as e:
+                    bad[i] = 'fails to load: ' + type(e).__name__
+            rec['unloadable'] = bad
+            rec['cached_load_ok'] = not bad
+            json.dump(rec, open(outp, 'w'))
+            return
         time.sleep(0.3)
         lines = open(rtasks.LOG).read().split() if os.path.exists(rtasks.LOG) else []
         rec['started'] = sorted(int(l[1:]) for l in lines if l[0] == 's')
